@@ -68,6 +68,7 @@ sed -i 's#path = "/work/[A-Za-z0-9]*/repo"#path = "/repo"#' harness/Cargo.toml
 # the lock file is regenerated from /repo's lock (offline resolution adds the harness-only crates)
 cp /repo/Cargo.lock harness/Cargo.lock && (cd harness && cargo build --offline 2>&1 | tail -1)
 if grep -rIl '^<<<<<<< \|^>>>>>>> ' --exclude-dir=.git --exclude-dir=target --exclude-dir=work --exclude-dir=build . ; then echo 'conflict markers remain in the files above'; exit 1; fi
+python3 tools/fix_hashes.py || true
 python3 tools/mkasbuilt.py || true
 git add -A
 git status --short | grep -E "^(UU|AA|DU|UD)" && { echo "unresolved conflicts remain"; exit 1; }
